@@ -8,5 +8,15 @@ struct colvarvalue {
   colvarvalue() : value_type(1), real_value(0.0) {}
   colvarvalue(cvm::real const &x) : value_type(1), real_value(x) {}
   operator cvm::real() const { return real_value; }
+  // own (type-based, non-periodic) metric and bookkeeping of the real class, as logging stubs
+  cvm::real dist2(colvarvalue const &x2) const;
+  colvarvalue dist2_grad(colvarvalue const &x2) const;
+  void reset() { real_value = 0.0; }
+  void type(colvarvalue const &) {}
+  void is_derivative() {}
 };
+extern "C" double k_cvv_dist2(double x1, double x2);
+extern "C" double k_cvv_dist2_grad(double x1, double x2);
+inline cvm::real colvarvalue::dist2(colvarvalue const &x2) const { return k_cvv_dist2(real_value, x2.real_value); }
+inline colvarvalue colvarvalue::dist2_grad(colvarvalue const &x2) const { double v = k_cvv_dist2_grad(real_value, x2.real_value); colvarvalue r(v); return r; }
 #endif
